@@ -9,6 +9,7 @@
 #include <string.h>
 #include <sys/syscall.h>
 #include <sys/types.h>
+#include <sys/wait.h>
 #include <time.h>
 #include <unistd.h>
 
@@ -41,6 +42,22 @@ int main(int argc, char **argv) {
     else if (!strcmp(k, "fpe")) { __asm__ volatile("xor %%ecx,%%ecx; xor %%edx,%%edx; mov $1,%%eax; idiv %%ecx" ::: "eax","ecx","edx"); }
     else if (!strcmp(k, "trap")) { __asm__ volatile("int3"); }
     _exit(101);
+  } else if (!strcmp(c, "childsig")) {
+    // a child dies of signal S (or exits with -S when S < 0) while the main task lives on and exits N
+    int s = atoi(argv[2]), n = atoi(argv[3]);
+    pid_t p = fork();
+    if (p == 0) {
+      if (s < 0) _exit(-s);
+      struct sigaction sa; memset(&sa, 0, sizeof sa); sa.sa_handler = SIG_DFL;
+      syscall(SYS_rt_sigaction, s, &sa, NULL, 8);
+      unsigned long long none = 0;
+      syscall(SYS_rt_sigprocmask, SIG_SETMASK, &none, NULL, 8);
+      syscall(SYS_kill, getpid(), s);
+      _exit(100);
+    }
+    int st; waitpid(p, &st, 0);
+    struct timespec ts = {0, 20000000}; nanosleep(&ts, NULL);
+    _exit(n);
   } else if (!strcmp(c, "hello")) {
     write(1, "hello\n", 6); _exit(0);
   }
